@@ -8,6 +8,7 @@ import PrefVerif.Driver.Domains
 import PrefVerif.Driver.C05
 import PrefVerif.Driver.C19
 import PrefVerif.Driver.ILP
+import PrefVerif.Driver.ELO
 open Lean PrefVerif.Driver
 
 def handlers : List (String × Handler) := [
@@ -32,7 +33,8 @@ def handlers : List (String × Handler) := [
   ("c05.profile", C05.profile),
   ("c05.matrix", C05.matrix),
   ("c19.check", C19.check),
-  ("ilp.model", ILPD.model)
+  ("ilp.model", ILPD.model),
+  ("elo.sp", ELO.elo)
 ]
 
 def dispatch (j : Json) : Json :=
